@@ -461,8 +461,18 @@ func runHTTP(x *core.Ctx) {
 		{"basic-wrong-pw", "", func(r *http.Request) { r.SetBasicAuth("alice", "nope") }},
 		{"basic-empty-user", "", func(r *http.Request) { r.SetBasicAuth("", "pw-alice") }},
 		{"basic-unknown-user", "", func(r *http.Request) { r.SetBasicAuth("mallory", "pw-alice") }},
-		{"query-good-carol", "carol", func(r *http.Request) { q := r.URL.Query(); q.Set("u", "carol"); q.Set("p", "pw-carol"); r.URL.RawQuery = q.Encode() }},
-		{"query-wrong", "", func(r *http.Request) { q := r.URL.Query(); q.Set("u", "carol"); q.Set("p", "x"); r.URL.RawQuery = q.Encode() }},
+		{"query-good-carol", "carol", func(r *http.Request) {
+			q := r.URL.Query()
+			q.Set("u", "carol")
+			q.Set("p", "pw-carol")
+			r.URL.RawQuery = q.Encode()
+		}},
+		{"query-wrong", "", func(r *http.Request) {
+			q := r.URL.Query()
+			q.Set("u", "carol")
+			q.Set("p", "x")
+			r.URL.RawQuery = q.Encode()
+		}},
 		{"query-user-only", "", func(r *http.Request) { q := r.URL.Query(); q.Set("u", "root"); r.URL.RawQuery = q.Encode() }},
 		{"bearer-good-alice", "alice", func(r *http.Request) {
 			r.Header.Set("Authorization", "Bearer "+makeJWT(secret, map[string]interface{}{"username": "alice", "exp": future}, "HS256"))
